@@ -1,5 +1,6 @@
 import RallyModel.Ctx
 import RallyProofs.Ctx
+import RallyGen.TraceHooks
 /-!
 # C18 — request timings span all sub-requests and never leak between clients
 
@@ -222,6 +223,62 @@ theorem dependent_timings_exact (fx : Bool) (evs : List CEv) (s : St) (items : I
 /-- streams three levels deep, streams before / between / after sub-requests -/
 example : collect (.stream (.op 0 (.stream (.op 1 .nil) (.op 2 .nil))) (.stream (.op 3 .nil) (.op 4 (.stream (.op 5 .nil) .nil))))
     = [0, 1, 2, 3, 4, 5] := by decide
+
+/-! ### the trace hooks: every HTTP request that starts also ends (whatever its outcome)
+
+`reg` is regenerated on every check from the AST of `EsClientFactory.create_async` (`RallyGen/TraceHooks.lean`): a
+hook that is no longer registered (or registered for the wrong callback) breaks these proofs. -/
+
+def reg : List (Signal × HookAct) := decodeReg Gen.TraceHooks.registered
+
+/-- **hooks_start_and_end**: for every outcome class of an HTTP request — completely received, failed before the
+    response headers, failed while the body was being read — the registered hooks call `on_request_start` exactly
+    once, first, and then `on_request_end` at least once and nothing else.  This is the premise under which the
+    wire log of the context model (`wireStart … wireEnd`) describes what the client really does, i.e. under which
+    `outer_span` / `sub_request_exact` speak about *all* HTTP requests. -/
+theorem hooks_start_and_end :
+    ∀ (o : Outcome) (last : Bool), startsAndEnds (hookActs reg Gen.TraceHooks.endOnFailure o last) = true := by
+  intro o last; cases o <;> cases last <;> decide
+
+/-- the end is (re-)recorded at the **last** signal aiohttp emits for the request, for every outcome class -/
+theorem end_recorded_at_last_signal :
+    ∀ o : Outcome, ∃ sg, (signalsOf o).getLast? = some sg ∧ (sg, HookAct.stop) ∈ reg ∧ (sg, HookAct.start) ∉ reg := by
+  intro o; cases o
+  · exact ⟨.chunkReceived, by decide⟩
+  · exact ⟨.requestException, by decide⟩
+  · exact ⟨.requestEnd, by decide⟩
+
+/-- **the full statement about the end of a single HTTP request**: an end is recorded at the moment the exchange is
+    over, for every outcome class. -/
+def EveryRequestEndsWhenItIsOver : Prop := ∀ o : Outcome, endsWhenOver reg Gen.TraceHooks.endOnFailure o = true
+
+/-- … which holds exactly if `RallyAsyncElasticsearch.perform_request` records the end of a failing transport call
+    for every exception: the trace hooks alone cannot do it, because aiohttp emits no signal when a request fails
+    while its body is being read (time-out / connection loss / cancellation after the response headers have arrived;
+    the recorded end then is the arrival of the headers).  The statement is true for both states of the code; the
+    constant is regenerated from the AST of asynchronous.py. -/
+theorem request_ends_when_over_iff : EveryRequestEndsWhenItIsOver ↔ Gen.TraceHooks.endOnFailure = 2 := by
+  unfold EveryRequestEndsWhenItIsOver
+  constructor
+  · intro h
+    have := h .failAfterHeaders
+    simpa [endsWhenOver] using this
+  · intro h o
+    cases o <;> simp [endsWhenOver, h] <;> decide
+
+/-- what the trace hooks do guarantee: requests that are received completely or fail before the response headers
+    end when they are over -/
+theorem request_ends_when_over_partial :
+    ∀ o : Outcome, o ≠ .failAfterHeaders → endsWhenOver reg Gen.TraceHooks.endOnFailure o = true := by
+  intro o ho; cases o
+  · decide
+  · decide
+  · exact absurd rfl ho
+
+/-- and the start at the first one, only there -/
+theorem start_recorded_at_first_signal_only :
+    ∀ o : Outcome, ∀ sg ∈ signalsOf o, ((sg, HookAct.start) ∈ reg ↔ sg = .requestStart) := by
+  intro o; cases o <;> decide
 
 /-! ### historical: the code before fix 65587fe (`runCtx false`)
 
